@@ -26,6 +26,9 @@ def run_case(case):
 
     def on_send(msg):
         frames.append({"id": msg.arbitration_id, "d": B(msg.data), "rtr": bool(msg.is_remote_frame)})
+        if msg.arbitration_id == 0x609:
+            eds_device(msg)
+            return
         if 0x600 < msg.arbitration_id < 0x680 and len(msg.data) == 8 and msg.data[0] >> 5 == 1:
             net.notify(msg.arbitration_id - 0x80, bytearray([0x60]) + bytearray(msg.data[1:4]) + bytearray(4), 0.0)
         if msg.arbitration_id == 0x607 and len(msg.data) == 8 and msg.data[0] >> 5 == 2:
@@ -53,9 +56,49 @@ def run_case(case):
     node = canopen.RemoteNode(7, od)
     net.add_node(node)
     ev = []
+    EDS_TEXT = ("[1000]\nParameterName=Device type\nObjectType=0x7\nDataType=0x0007\nAccessType=ro\n"
+                "[2000]\nParameterName=Speed\nObjectType=0x7\nDataType=0x0006\nAccessType=rw\nDefaultValue=$NODEID+0x200\n").encode("ascii")
+    imp = {"mode": "ok", "pos": 0, "tog": 0}
+
+    def eds_device(msg):
+        # node 9 serves (or refuses, or garbles) its stored EDS in 0x1021:00, segmented, size indicated
+        d = bytes(msg.data)
+        text = EDS_TEXT if imp["mode"] != "garbage" else b"[1000\nParameterName\n\xff\xfe not an EDS"
+        if imp["mode"] == "silent":
+            return
+        if d[0] == 0x40:
+            if imp["mode"] == "abort":
+                net.notify(0x589, bytearray([0x80]) + bytearray(d[1:4]) + bytearray(struct.pack("<L", 0x06020000)), 0.0)
+                return
+            imp["pos"], imp["tog"] = 0, 0
+            net.notify(0x589, bytearray([0x41]) + bytearray(d[1:4]) + bytearray(struct.pack("<L", len(text))), 0.0)
+        elif d[0] >> 5 == 3:
+            chunk = text[imp["pos"]:imp["pos"] + 7]
+            imp["pos"] += len(chunk)
+            last = imp["pos"] >= len(text)
+            net.notify(0x589, bytearray([imp["tog"] << 4 | (7 - len(chunk)) << 1 | int(last)]) + bytearray(chunk.ljust(7, b"\0")), 0.0)
+            imp["tog"] ^= 1
     for _ in range(case["n"]):
         del frames[:]
-        k = rng.choice(["sync", "time", "search", "store", "restore", "identify", "identify_nc", "arrview", "recview"])
+        k = rng.choice(["sync", "time", "search", "store", "restore", "identify", "identify_nc", "arrview", "recview", "importnode"])
+        if k == "importnode":
+            # import_from_node: the dictionary the device describes, or None; the temporary subscription is
+            # taken back in every outcome - together with everything else subscribed to that id (UnsubscribesAll)
+            from canopen.objectdictionary.eds import import_from_node
+            imp["mode"] = rng.choice(["ok", "ok", "abort", "silent", "garbage"])
+            pre = rng.choice(["none", "user"])
+            user_cb = lambda *a: None  # noqa
+            net.subscribers.pop(0x589, None)
+            if pre == "user":
+                net.subscribe(0x589, user_cb)
+            od9 = import_from_node(9, net)
+            e = {"e": "importnode", "mode": imp["mode"], "pre": pre, "got": od9 is not None,
+                 "indexes": sorted(od9) if od9 is not None else [], "def2000": -1 if od9 is None or 0x2000 not in od9 or od9[0x2000].default is None else od9[0x2000].default,
+                 "left": len(net.subscribers.get(0x589, [])),
+                 "first": [f["d"] for f in frames if f["id"] == 0x609][:1]}
+            net.subscribers.pop(0x589, None)
+            ev.append(e)
+            continue
         if k == "arrview":
             # the array view of a remote node: length, iteration and membership follow the number of
             # entries the DEVICE reports in sub-index 0 at that moment (one upload per question)
